@@ -131,6 +131,39 @@ def eval_case(ctx, case):
     return v, stats["evals"], len(stats["distinct"])
 
 
+def many_files(ctx, case):
+    """one create over many files of different lengths: every recorded digest is the digest of that file alone"""
+    v = []
+    tree = {}
+    for i in range(case["many"]):
+        n = [0, 1, 7, 100, 4096, 65537][i % 6] + i
+        tree[f"f{i:02d}.bin"] = content("pattern", n + (MB if i in (5, 17) else 0))
+    tree["sub"] = None
+    for i in range(6):
+        tree[f"sub/g{i}.bin"] = bytes([i]) * (i * 1000)
+    evals = 0
+    for fmts in (["md5"], list(ref.FORMATS_CLI)):
+        res, post = ops.run_cmd(ctx, tree, ops.create("", fmts), sub.NOW0)
+        if res.exit != 0:
+            v.append(Viol(PROP, "create-fails", {"len": "many"}, f"create over {len(tree)} files exits {res.exit} {res.exc}", case))
+            continue
+        m = ref.read_manifest(ref.generations(post, "")[0]["bytes"])
+        for rec in m["records"]:
+            if rec["kind"] != "file":
+                continue
+            for h in rec["hashes"]:
+                evals += 1
+                want = ref.digest(h["format"], tree[rec["path"]])
+                if h["digest"] != want:
+                    v.append(Viol(PROP, "digest-mismatch", {"len": "many-files", "entry": "create", "fmt": h["format"], "multi": len(fmts) > 1},
+                                  f"create over {len(tree)} files, {rec['path']} {h['format']}: {h['digest']}, standard digest {want}", case))
+        r2 = ctx.run("verify", [ctx.root], now=sub.NOW0 + 5)
+        evals += 1
+        if r2.exit != 0:
+            v.append(Viol(PROP, "verify-untouched-fails", {"len": "many-files"}, f"verify of {len(tree)} untouched files exits {r2.exit}", case))
+    return v, evals, evals
+
+
 def c4_family():
     vals = {0, 1, (1 << 512) - 1}
     for k in range(0, 89):
@@ -184,6 +217,8 @@ def c4_codec(ctx, vals):
 
 
 def work(ctx, case):
+    if "many" in case:
+        return many_files(ctx, case)
     if "c4_values" in case:
         vs, n = c4_codec(ctx, case["c4_values"])
         return vs, n, n
@@ -191,6 +226,8 @@ def work(ctx, case):
 
 
 def _eval_only(ctx, case):
+    if "many" in case:
+        return many_files(ctx, case)[0]
     if "c4_value" in case:
         return c4_codec(ctx, [int(case["c4_value"], 16)])[0]
     return eval_case(ctx, case)[0]
@@ -213,6 +250,9 @@ def main(tier, seed):
     small = [b""] + [bytes(t) for r in (1, 2) for t in itertools.product([0x00, 0x0A, 0x61, 0xFF], repeat=r)]
     for d in small:
         cases.append({"len": len(d), "kind": "enum:" + d.hex(), "data": d, "sets": [(list(ref.FORMATS_LIB), "asc")], "cli": tier == "thorough"})
+    cases.append({"many": 24})
+    if tier == "thorough":
+        cases.append({"many": 150})
     fam = c4_family()
     for i in range(0, len(fam), 500):
         cases.append({"c4_values": fam[i:i + 500]})
@@ -223,7 +263,7 @@ def main(tier, seed):
         eng.add_viols(vs)
         evals += ne
         distinct += nd
-        eng.outcome(("c4-codec" if "c4_values" in case else lenclass(case["len"]), "viol" if vs else "ok"))
+        eng.outcome(("c4-codec" if "c4_values" in case else ("many-files" if "many" in case else lenclass(case["len"])), "viol" if vs else "ok"))
     eng.sample({"length": 3 * MB + 17, "content": "pattern", "format_set": sets[-1][0], "entry_points":
                 ["hash_file", "hash_data", "streaming", "multiple_format_hash_file", "multiple_format_hash_data", "cli-hash", "create", "verify"]})
     eng.sample({"length": MB, "content": "ff", "format_set": sets[0][0]})
